@@ -2,17 +2,19 @@
 (* Conformance of the L2 model (CdcModel) to the real netlists: every       *)
 (* recorded step (registers read by name / by structure from the netlist,   *)
 (* inputs incl. the edge choice tk, outputs, registers after the instant)   *)
-(* must be exactly what CdcModel!MStep computes.  Cases come from           *)
-(*  (a) ALL edges of the complete G-mode graph of each DUT:                 *)
-(*        <<r, iv, o, <<r2, r2', ...>>>>   one successor per metastable     *)
+(* must be exactly what CdcModel!MStep computes.                            *)
+(*   T.duts[i] = [m |-> model cfg, reset |-> registers after reset,         *)
+(*                states |-> << projected register records >>,              *)
+(*                cases |-> << case, ... >>]     (states are 0-based ids)   *)
+(* Cases come from                                                          *)
+(*  (a) ALL edges of the G-mode graph of each DUT:                          *)
+(*        <<s, iv, o, <<d, d', ...>>>>   one successor per metastable       *)
 (*      resolution the stepper produced (Stepper.step_meta); the clause is  *)
 (*      "the SET of successors the model allows equals the recorded set";   *)
 (*  (b) every instant of the two-clock T-mode runs replayed on the          *)
 (*      reference evaluator without injection:                              *)
-(*        <<r, iv, o, <<r2>>, 0>>          r2 must be the model's `base`    *)
+(*        <<s, iv, o, <<d>>, 0>>         d must be the model's `base`       *)
 (*      successor (every first flop samples the old source value).          *)
-(*   T.duts[i] = [m |-> model cfg, reset |-> registers after reset,         *)
-(*                cases |-> << case, ... >>]                                *)
 (* A failing clause is MODEL-DRIFT, never a verdict.                        *)
 EXTENDS Integers, Sequences, TLC, Json, IOUtils
 
@@ -24,10 +26,12 @@ vars == <<i, j>>
 Init == i \in 1..Len(T.duts) /\ j \in 1..Len(T.duts[i].cases)
 Next == UNCHANGED vars
 
-K == T.duts[i].cases[j]
-E == M!MStep(T.duts[i].m, K[1], K[2])
+D == T.duts[i]
+K == D.cases[j]
+St(k) == D.states[k + 1]
+E == M!MStep(D.m, St(K[1]), K[2])
 OutputsAgree == E.o = K[3]
-NextStateAgrees == IF Len(K) = 4 THEN E.rs = { K[4][k] : k \in 1..Len(K[4]) }
-                   ELSE K[4][1] = E.base /\ E.base \in E.rs
-ResetAgrees == T.duts[i].reset = M!MInit(T.duts[i].m)
+NextStateAgrees == IF Len(K) = 4 THEN E.rs = { St(K[4][k]) : k \in 1..Len(K[4]) }
+                   ELSE St(K[4][1]) = E.base /\ E.base \in E.rs
+ResetAgrees == D.reset = M!MInit(D.m)
 =============================================================================
